@@ -31,12 +31,12 @@ def run(ck):
         vkit.write_ndjson(scen_path, [json.load(open(ck.replay))["replay"]["scenario"]])
     else:
         jobs = [("Validation", "Validation_thorough.cfg" if thorough else "Validation_quick.cfg", dict(timeout=1500, workers=4)),
-                ("ValidationSlicer", "ValidationSlicer_fixed.cfg", dict(timeout=1500, workers=4)),
-                ("ValidationSlicer", "ValidationSlicer_asis.cfg", dict(timeout=1500, workers=4))]
+                ("ValidationSlicer", "ValidationSlicer_thorough_fixed.cfg" if thorough else "ValidationSlicer_fixed.cfg", dict(timeout=1500, workers=4)),
+                ("ValidationSlicer", "ValidationSlicer_thorough_asis.cfg" if thorough else "ValidationSlicer_asis.cfg", dict(timeout=1500, workers=4))]
         if os.environ.get("VERIF_SKIP_MODELS"):     # developer switch for mutation testing only
             jobs = []
         models = pu.Models(ck, jobs, max_workers=2)
-        ck.harness(binp, ["c24", "rnd", 60000 if thorough else 6000, scen_path])
+        ck.harness(binp, ["c24", "rnd", 200000 if thorough else 4000, scen_path])
     recs_path = os.path.join(ck.tmp, "records.ndjson")
     ck.harness(binp, ["c24", "run", scen_path, recs_path], timeout=1800)
     recs = vkit.read_ndjson(recs_path)
